@@ -45,11 +45,11 @@ CreateSteps == {"mkstemp", "write", "rename", "close", "chmod"}
 CrashPcs == IF CrashIn = "create" THEN {"vopen", "vprobe"} \cup CreateSteps
             ELSE {"vopen", "vprobe", "uopen", "uunlink"} \cup CreateSteps
 
-VARIABLES file, tmp, litter, alive, fname, mpid, pc, op, seen, vlive, failed,
+VARIABLES file, tmp, litter, alive, fname, mpid, pc, op, seen, vlive, stat,
           nops, ncrash, busy, last, hist
-vars == <<file, tmp, litter, alive, fname, mpid, pc, op, seen, vlive, failed,
+vars == <<file, tmp, litter, alive, fname, mpid, pc, op, seen, vlive, stat,
           nops, ncrash, busy, last, hist>>
-view == <<file, tmp, litter, alive, fname, mpid, pc, op, seen, vlive, failed,
+view == <<file, tmp, litter, alive, fname, mpid, pc, op, seen, vlive, stat,
           nops, ncrash, busy>>
 
 Proj == [p |-> file["p"], q |-> file["q"], l |-> litter, al |-> alive,
@@ -61,14 +61,14 @@ Init ==
   /\ fname = [i \in Inst |-> "p"] /\ mpid = [i \in Inst |-> 0]
   /\ pc = [i \in Inst |-> "idle"] /\ op = [i \in Inst |-> [k |-> "", to |-> "p"]]
   /\ seen = [i \in Inst |-> 0] /\ vlive = [i \in Inst |-> FALSE]
-  /\ failed = [i \in Inst |-> FALSE]
+  /\ stat = [i \in Inst |-> "new"]
   /\ nops = 0 /\ ncrash = 0 /\ busy = 0
-  /\ last = [a |-> "init", i |-> 0, fin |-> ""] /\ hist = <<>>
+  /\ last = [a |-> "init", i |-> 0, fin |-> "", rt |-> 0] /\ hist = <<>>
 
 (* e: [a, i, k, to, s, fin, rt, x, c]; st (projection after the step) is added here.      *)
 (* fin: "" (operation goes on) | "ok" | "raised" | "crash"; rt: value returned by validate *)
 Log(e) ==
-  /\ last' = [a |-> e.a, i |-> e.i, fin |-> e.fin]
+  /\ last' = [a |-> e.a, i |-> e.i, fin |-> e.fin, rt |-> e.rt]
   /\ hist' = IF HistMode = "sys" \/ (HistMode = "op" /\ (e.a \notin {"start", "step"} \/ e.fin # ""))
              THEN Append(hist, e @@ [st |-> Proj']) ELSE hist
 
@@ -78,10 +78,12 @@ StepEv(i, s, fin, rt) == [a |-> "step", i |-> i, k |-> op[i].k, to |-> op[i].to,
 (* ---- control helpers: every step conjoins exactly one of Fin / Go / EndU.            ---- *)
 (* ---- seen / vlive (what the running operation read) are forgotten when it ends.      ---- *)
 Fin(i, r) == /\ pc' = [pc EXCEPT ![i] = "idle"] /\ busy' = 0
-             /\ failed' = [failed EXCEPT ![i] = failed[i] \/ r = "raised"]
+             /\ stat' = [stat EXCEPT ![i] = IF r = "raised" THEN "failed" ELSE IF op[i].k \in {"create", "rename", "reload"} THEN "held" ELSE stat[i]]
              /\ seen' = [seen EXCEPT ![i] = 0] /\ vlive' = [vlive EXCEPT ![i] = FALSE]
-Go(i, p, sn, vl) == /\ pc' = [pc EXCEPT ![i] = p] /\ UNCHANGED <<busy, failed>>
+Go(i, p, sn, vl) == /\ pc' = [pc EXCEPT ![i] = p] /\ UNCHANGED <<busy, stat>>
                     /\ seen' = [seen EXCEPT ![i] = sn] /\ vlive' = [vlive EXCEPT ![i] = vl]
+(* validate passed: "self.pid = pid" happens before the next system call (rename: create(self.pid)) *)
+SetPid(i) == mpid' = [mpid EXCEPT ![i] = IF op[i].k = "rename" THEN mpid[i] ELSE i]
 
 (* end of the unlink steps: plain unlink finishes; rename / reload switch name and go on *)
 EndU(i) ==
@@ -96,8 +98,8 @@ FinOf(i) == IF op[i].k = "unlink" THEN "ok" ELSE ""
 Start(i, k, to) ==
   /\ pc[i] = "idle" /\ nops < MaxOps
   /\ IF Atomic THEN busy = 0 ELSE TRUE
-  /\ IF failed[i] THEN k = "unlink" ELSE TRUE          \* a failed start only cleans up and exits
-  /\ IF k = "rename" THEN mpid[i] # 0 ELSE TRUE        \* only a created pid file is renamed
+  /\ IF stat[i] = "failed" THEN k = "unlink" ELSE TRUE  \* a failed start only cleans up and exits
+  /\ IF k = "rename" THEN stat[i] = "held" ELSE TRUE    \* rename only after a create that returned
   /\ IF k \in {"rename", "reload"} THEN TRUE ELSE to = fname[i]
   /\ op' = [op EXCEPT ![i] = [k |-> k, to |-> to]]
   /\ busy' = i /\ nops' = nops + 1
@@ -105,19 +107,19 @@ Start(i, k, to) ==
      THEN /\ pc' = [pc EXCEPT ![i] = "vopen"] /\ fname' = [fname EXCEPT ![i] = to]
      ELSE /\ pc' = [pc EXCEPT ![i] = IF k \in {"create", "validate"} THEN "vopen" ELSE "uopen"]
           /\ fname' = fname
-  /\ UNCHANGED <<file, tmp, litter, alive, mpid, seen, vlive, failed, ncrash>>
+  /\ UNCHANGED <<file, tmp, litter, alive, mpid, seen, vlive, stat, ncrash>>
   /\ Log([a |-> "start", i |-> i, k |-> k, to |-> to, s |-> "", fin |-> "", rt |-> 0, x |-> "", c |-> 0])
 
 (* ---- validate(): open + read + int() ---- *)
 VOpen(i) ==
   /\ pc[i] = "vopen"
+  /\ UNCHANGED <<file, tmp, litter, alive, fname, op, nops, ncrash>>
   /\ LET c == file[fname[i]] IN
      IF Names(c) = 0
      THEN IF op[i].k = "validate"
-          THEN Fin(i, "ok") /\ Log(StepEv(i, "vopen", "ok", 0))
-          ELSE Go(i, "mkstemp", c, FALSE) /\ Log(StepEv(i, "vopen", "", 0))
-     ELSE Go(i, "vprobe", c, FALSE) /\ Log(StepEv(i, "vopen", "", 0))
-  /\ UNCHANGED <<file, tmp, litter, alive, fname, mpid, op, nops, ncrash>>
+          THEN Fin(i, "ok") /\ mpid' = mpid /\ Log(StepEv(i, "vopen", "ok", 0))
+          ELSE Go(i, "mkstemp", c, FALSE) /\ SetPid(i) /\ Log(StepEv(i, "vopen", "", 0))
+     ELSE Go(i, "vprobe", c, FALSE) /\ mpid' = mpid /\ Log(StepEv(i, "vopen", "", 0))
 
 (* ---- validate(): kill(pid, 0) ---- *)
 ProbeKind(n) == IF n \notin alive THEN "esrch" ELSE IF n = 4 THEN "eperm" ELSE "ok"
@@ -126,36 +128,37 @@ CodeSaysAlive(n) == IF ProbeKind(n) = "esrch" THEN "EsrchAlive" \in Dev
                     ELSE TRUE
 VProbe(i) ==
   /\ pc[i] = "vprobe"
+  /\ UNCHANGED <<file, tmp, litter, alive, fname, op, nops, ncrash>>
   /\ LET n == Names(seen[i]) IN
      IF CodeSaysAlive(n)
      THEN IF op[i].k = "validate"
-          THEN Fin(i, "ok") /\ Log(StepEv(i, "vprobe", "ok", n))
+          THEN Fin(i, "ok") /\ mpid' = mpid /\ Log(StepEv(i, "vprobe", "ok", n))
           ELSE IF n = i
-          THEN Fin(i, "ok") /\ Log(StepEv(i, "vprobe", "ok", 0))             \* early return (O3)
+          THEN Fin(i, "ok") /\ mpid' = mpid /\ Log(StepEv(i, "vprobe", "ok", 0))    \* early return (O3)
           ELSE IF "NoRaise" \in Dev
-          THEN Go(i, "mkstemp", seen[i], n \in alive) /\ Log(StepEv(i, "vprobe", "", 0))
-          ELSE Fin(i, "raised") /\ Log(StepEv(i, "vprobe", "raised", 0))
+          THEN Go(i, "mkstemp", seen[i], n \in alive) /\ SetPid(i) /\ Log(StepEv(i, "vprobe", "", 0))
+          ELSE Fin(i, "raised") /\ mpid' = mpid /\ Log(StepEv(i, "vprobe", "raised", 0))
      ELSE IF op[i].k = "validate"
-          THEN Fin(i, "ok") /\ Log(StepEv(i, "vprobe", "ok", 0))
-          ELSE Go(i, "mkstemp", seen[i], n \in alive) /\ Log(StepEv(i, "vprobe", "", 0))
-  /\ UNCHANGED <<file, tmp, litter, alive, fname, mpid, op, nops, ncrash>>
+          THEN Fin(i, "ok") /\ mpid' = mpid /\ Log(StepEv(i, "vprobe", "ok", 0))
+          ELSE Go(i, "mkstemp", seen[i], n \in alive) /\ SetPid(i) /\ Log(StepEv(i, "vprobe", "", 0))
 
 (* ---- create(): self.pid = pid; mkstemp / write / rename / close / chmod ---- *)
 Mkstemp(i) ==
   /\ pc[i] = "mkstemp"
-  /\ mpid' = [mpid EXCEPT ![i] = i]
   /\ IF "DirectWrite" \in Dev
      THEN file' = [file EXCEPT ![fname[i]] = -1] /\ tmp' = tmp      \* open(path, "w") truncates
      ELSE tmp' = [tmp EXCEPT ![i] = -1] /\ file' = file
   /\ Go(i, "write", seen[i], vlive[i])
-  /\ UNCHANGED <<litter, alive, fname, op, nops, ncrash>>
+  /\ UNCHANGED <<litter, alive, fname, mpid, op, nops, ncrash>>
   /\ Log(StepEv(i, "mkstemp", "", 0))
 
+(* "%s\n" % self.pid; self.pid is None when the create before returned early (O3): "None\n" *)
+Content(i) == IF mpid[i] = 0 THEN -3 ELSE mpid[i]
 Write(i) ==
   /\ pc[i] = "write"
   /\ IF "DirectWrite" \in Dev
-     THEN file' = [file EXCEPT ![fname[i]] = i] /\ tmp' = tmp /\ Go(i, "close", seen[i], vlive[i])
-     ELSE tmp' = [tmp EXCEPT ![i] = i] /\ file' = file /\ Go(i, "rename", seen[i], vlive[i])
+     THEN file' = [file EXCEPT ![fname[i]] = Content(i)] /\ tmp' = tmp /\ Go(i, "close", seen[i], vlive[i])
+     ELSE tmp' = [tmp EXCEPT ![i] = Content(i)] /\ file' = file /\ Go(i, "rename", seen[i], vlive[i])
   /\ UNCHANGED <<litter, alive, fname, mpid, op, nops, ncrash>>
   /\ Log(StepEv(i, "write", "", 0))
 
@@ -179,11 +182,11 @@ Chmod(i) ==
 (* ---- unlink(): open + read + int(); compare; os.unlink ---- *)
 UOpen(i) ==
   /\ pc[i] = "uopen"
+  /\ UNCHANGED <<file, tmp, litter, alive, op, nops, ncrash>>
   /\ LET c == file[fname[i]] IN
      IF c # 0 /\ ("UnlinkNoCompare" \in Dev \/ (Names(c) # 0 /\ Names(c) = mpid[i]))
      THEN Go(i, "uunlink", c, FALSE) /\ UNCHANGED <<fname, mpid>> /\ Log(StepEv(i, "uopen", "", 0))
      ELSE EndU(i) /\ Log(StepEv(i, "uopen", FinOf(i), 0))
-  /\ UNCHANGED <<file, tmp, litter, alive, op, nops, ncrash>>
 
 UUnlink(i) ==
   /\ pc[i] = "uunlink"
@@ -197,7 +200,7 @@ Foreign(x, c) ==
   /\ nops < MaxOps /\ (IF Atomic THEN busy = 0 ELSE TRUE)
   /\ file[x] # c
   /\ file' = [file EXCEPT ![x] = c] /\ nops' = nops + 1
-  /\ UNCHANGED <<tmp, litter, alive, fname, mpid, pc, op, seen, vlive, failed, ncrash, busy>>
+  /\ UNCHANGED <<tmp, litter, alive, fname, mpid, pc, op, seen, vlive, stat, ncrash, busy>>
   /\ Log([a |-> "foreign", i |-> 0, k |-> "", to |-> "", s |-> "", fin |-> "", rt |-> 0, x |-> x, c |-> c])
 
 Die(p) ==
@@ -205,7 +208,7 @@ Die(p) ==
   /\ IF p \in Inst THEN pc[p] = "idle" ELSE TRUE
   /\ alive' = alive \ {p} /\ nops' = nops + 1
   /\ pc' = IF p \in Inst THEN [pc EXCEPT ![p] = "dead"] ELSE pc
-  /\ UNCHANGED <<file, tmp, litter, fname, mpid, op, seen, vlive, failed, ncrash, busy>>
+  /\ UNCHANGED <<file, tmp, litter, fname, mpid, op, seen, vlive, stat, ncrash, busy>>
   /\ Log([a |-> "die", i |-> 0, k |-> "", to |-> "", s |-> "", fin |-> "", rt |-> 0, x |-> "", c |-> p])
 
 (* the process dies just before executing the system call pc[i] stands at *)
@@ -217,7 +220,7 @@ Crash(i) ==
   /\ litter' = IF tmp[i] # NoTmp THEN litter + 1 ELSE litter
   /\ tmp' = [tmp EXCEPT ![i] = NoTmp]
   /\ seen' = [seen EXCEPT ![i] = 0] /\ vlive' = [vlive EXCEPT ![i] = FALSE]
-  /\ UNCHANGED <<file, fname, mpid, op, failed, nops>>
+  /\ UNCHANGED <<file, fname, mpid, op, stat, nops>>
   /\ Log([a |-> "crash", i |-> i, k |-> op[i].k, to |-> op[i].to, s |-> pc[i], fin |-> "crash",
           rt |-> 0, x |-> "", c |-> 0])
 
@@ -277,6 +280,11 @@ UnlinkOnlyOwnAtRead ==
 (* a name that names a live process other than i is never touched by i *)
 NeverDeletesForeign ==
   [][\A x \in Paths : (ByInst /\ Actor \in Inst /\ LiveForeign(file[x], Actor)) => file'[x] = file[x]]_vars
+
+(* a rename / reload that completes moved the name: the old name no longer names i *)
+RenameMoves ==
+  [][\A i \in Inst : (pc[i] = "chmod" /\ pc'[i] = "idle" /\ op[i].k \in {"rename", "reload"})
+        => \A x \in Paths : (x # fname[i] /\ file'[x] = i) => FALSE]_vars
 
 (* every history eventually leaves every instance idle or dead (no step blocks) *)
 NoStuck == \A i \in Inst : pc[i] \notin {"idle", "dead"} => ENABLED SysStep(i)
